@@ -44,17 +44,31 @@ Record env := {
   math_text : xml -> string                 (* XmlNode::convertToString() of a math element (parser side) *)
 }.
 
+Definition nonempty (s : string) : bool := match s with EmptyString => false | _ => true end.
+
+(** libxml2's own serialiser escapes attribute values (printMath output is a serialisation): the source form of a
+    tree that is inserted as text *)
+Fixpoint xml_escape (x : xml) : xml :=
+  match x with
+  | Elem ns nm attrs ks =>
+    Elem ns nm (map (fun a => mkAttr (a_ns a) (a_name a) (escape_attr (a_val a))) attrs)
+         ((fix go (l : list xml) : list xml := match l with [] => [] | k :: r => xml_escape k :: go r end) ks)
+  | Text s => Text s
+  | Comment => Comment
+  end.
+
 Section Print.
 Variable E : env.
-Variable fixed : bool.
+(** how a user string is written between the quotes, and how an inserted math tree is written: the SOURCE of the
+    document uses (escape_attr | the identity, xml_escape); the TREE the document denotes uses (identity, identity) *)
+Variable av : string -> string.
+Variable mq : xml -> xml.
 
-Definition av (s : string) : string := if fixed then escape_attr s else s.
-Definition nonempty (s : string) : bool := match s with EmptyString => false | _ => true end.
 (** an attribute that is written only when its value is not empty *)
 Definition opt_attr (name val : string) : list attr := if nonempty val then [at_ name (av val)] else [].
 
 Definition math_kids (m : string) : list xml :=
-  if nonempty m then match norm_math E m with Some xs => xs | None => [] end else [].
+  if nonempty m then match norm_math E m with Some xs => map mq xs | None => [] end else [].
 
 (* printUnits: the unit children *)
 Definition print_unit (d : unitdef) : xml :=
@@ -200,7 +214,7 @@ Fixpoint print_connections (cs : list component) (l : list mapentry) (done : lis
 
 (** ** The model *)
 
-Definition print_model_src (m : model) : xml :=
+Definition print_gen (m : model) : xml :=
   let enc := flat_map (fun c => match kids c with [] => [] | _ => [print_encapsulation c] end) (m_comps m) in
   el "model" (opt_attr "name" (m_name m) ++ opt_attr "id" (m_id m))
      (print_imports m
@@ -209,7 +223,16 @@ Definition print_model_src (m : model) : xml :=
       ++ print_connections (m_comps m) (build_maps m) []
       ++ (match enc with [] => [] | _ => [el "encapsulation" (opt_attr "id" (m_encid m)) enc] end)).
 
-(** the tree the parser will see; None: Printer::printModel returned the empty string *)
-Definition print_model (m : model) : option xml := xml_read (print_model_src m).
-
 End Print.
+
+Definition ident {A : Type} (x : A) : A := x.
+
+(** the text Printer::printModel hands to libxml2, as a source tree *)
+Definition print_model_src (E : env) (fixed : bool) (m : model) : xml :=
+  print_gen E (if fixed then escape_attr else ident) xml_escape m.
+
+(** the tree that text is meant to denote *)
+Definition print_tree (E : env) (m : model) : xml := print_gen E ident ident m.
+
+(** the tree the parser will see; None: Printer::printModel returned the empty string *)
+Definition print_model (E : env) (fixed : bool) (m : model) : option xml := xml_read (print_model_src E fixed m).
